@@ -189,8 +189,16 @@ def gen(cls, idx, rng, tier):
 
 
 def image_of(b, i):
-    return bytes((b["fill"] + i * 7 + j * (i + 3)) & 0xff
-                 for j in range(b["size"]))
+    """The bytes of binary i.  A third of the binaries are a short periodic
+    pattern (so that whole blocks of them are byte-identical), the others
+    have no two blocks alike (so that a block sent out of place, twice or
+    under another block's number is visible in the reassembled image)."""
+    if (b["fill"] + b["size"] // 4 + i) % 3 == 0:
+        return bytes((b["fill"] + i * 7 + j * (i + 3)) & 0xff
+                     for j in range(b["size"]))
+    import random
+    return random.Random(b["fill"] * 1000003 + i * 7919 +
+                         b["size"]).randbytes(b["size"])
 
 
 def run(case, ctx):
